@@ -119,9 +119,13 @@ def run(ctx):
     if not rel:
         raise RuntimeError("release build failed: " + err)
     inputs = []
+    replay_set = None
     if ctx.get("replay"):
         rp = json.load(open(ctx["replay"]))
-        inputs.append((rp["tag"], rp["text"]))
+        if rp.get("fileset"):
+            replay_set = rp["fileset"]
+        else:
+            inputs.append((rp["tag"], rp["text"]))
     else:
         inputs += corpus()
         rng = vlib.mkrng(seed, prop)
@@ -247,7 +251,30 @@ def run(ctx):
         if cls:
             f["known_class"] = cls
         res["failures"].append(f)
+    # debug and release builds over whole file sets and every backend: same verdicts, same files, same bytes
+    import p_determinism
+    nsets, set_diffs = (6 if tier == "quick" else 100), 0
+    if not ctx.get("replay") or replay_set is not None:
+        srng = vlib.mkrng(seed, prop + "-sets")
+        for m in range(nsets if replay_set is None else 1):
+            fs, _ = gen.gen_fileset(srng, nfiles=srng.choice([2, 3, 3]))
+            if replay_set is not None:
+                fs = replay_set
+            root = os.path.join(work, "sets", str(m))
+            mainp = gen.write_fileset(fs, root)
+            rd = p_determinism.compile_all(ctx["idlc"], mainp, root, root, os.path.join(root, "o_debug"))
+            rr = p_determinism.compile_all(rel, mainp, root, root, os.path.join(root, "o_release"))
+            for tagb in rd:
+                if rd[tagb][0] != rr[tagb][0] or rd[tagb][1] != rr[tagb][1]:
+                    set_diffs += 1
+                    res["failures"].append({"property": prop, "tag": "fileset", "fileset": fs, "backend": tagb,
+                                            "text": "\n".join("// %s\n%s" % (f["path"], gen.render_file(f)) for f in fs["files"]),
+                                            "debug": {"rc": rd[tagb][0]}, "release": {"rc": rr[tagb][0]},
+                                            "what": "debug and release builds disagree on a file set (%s: exit %s vs %s, %s)" % (
+                                                tagb, rd[tagb][0], rr[tagb][0], "files or bytes differ" if rd[tagb][0] == rr[tagb][0] else "verdict differs")})
+                    break
     res["coverage"] = {
+        "filesets_all_backends_debug_vs_release": {"sets": nsets, "differing": set_diffs},
         "evaluations": len(inputs), "distinct_nontrivial": distinct,
         "peg_model": peg_hist,
         "rule": "corpus of boundary inputs (array sizes 0/65536, usize-overflowing nests, counts beyond u8, comments between tokens, BOM, NUL, 64-deep "
